@@ -792,13 +792,18 @@ def run(ctx, rep):
     for cq0 in ("rpyc.core.channel.Channel",) + tuple(STREAMS):
         H0.private_state(ctx, rep, "R05.6", cq0)
     fields = {"rpyc.core.stream.SocketStream": "sock", "rpyc.core.stream.PipeStream": "incoming"}
+    decided = _stream_model(ctx, rep)
     for cq in STREAMS:
-        f, g = check_read(ctx, rep, cq)
-        check_failure(ctx, rep, cq, f, g, "read")
-        f, g = check_write(ctx, rep, cq)
-        check_failure(ctx, rep, cq, f, g, "write")
-        check_oserror_coverage(ctx, rep, cq, "write", SEND_NAMES)
-        check_oserror_coverage(ctx, rep, cq, "read", RECV_NAMES)
+        for op, names in (("read", RECV_NAMES), ("write", SEND_NAMES)):
+            fop = ctx.func(cq + "." + op)
+            if decided.get((cq, op)) and not _os_calls(fop.node, names):
+                # the OS call sits in a helper / closure the structural loop rules do not look into: the loop is decided by the
+                # model evaluation (R05.9) alone
+                rep.info("%s.%s: no direct OS %s call in the method body; loop discipline decided by R05.9" % (cq.split(".")[-1], op, op))
+                continue
+            f, g = (check_read if op == "read" else check_write)(ctx, rep, cq)
+            check_failure(ctx, rep, cq, f, g, op)
+            check_oserror_coverage(ctx, rep, cq, op, names)
         check_close(ctx, rep, cq, fields[cq])
     _channel_model(ctx, rep)
     try:
@@ -834,7 +839,7 @@ def check_raw_descriptor_writes(ctx, rep):
         if fw is None:
             continue
         flds = set()
-        for call in A.calls(fw.node):
+        for call in A.calls(fw.node, into_scopes=True):
             if A.call_name(call) == "os.write" and call.args:
                 a0 = call.args[0]
                 if isinstance(a0, ast.Call) and isinstance(a0.func, ast.Attribute) and a0.func.attr == "fileno" and \
@@ -1040,3 +1045,171 @@ def _channel_model(ctx, rep):
     rep.ob("R05.8", "Channel.send/recv on model streams: each packet framed as header(len, flag) + payload + flusher, sequences read "
            "back unchanged", not bad, "%d sequences x compression settings" % rows if not bad else "; ".join(bad[:3]),
            c.methods["send"].loc, kind="model")
+
+
+def _stream_model(ctx, rep):
+    """R05.9: SocketStream / PipeStream read() and write() evaluated (sa/miniinterp.py) on scripted model descriptors: data
+    arriving in fragments of every size, receive time-outs and would-block errors between fragments, end-of-stream and a hard
+    error at every position; partial sends. Reference: read(n) returns exactly the next n bytes of the stream and consumes no
+    more; write(d) gets exactly d accepted by the descriptor, in order; EOF / hard errors close the stream and raise EOFError.
+    Returns {(class, op): True} for the loops it decided and found correct."""
+    import errno as _errno
+    from .. import miniinterp as MI
+    rep.rule("R05.9", "model evaluation of the stream loops: exact reads (no byte more, none less) under every fragmentation with "
+                      "interleaved time-outs / would-block conditions; complete writes under partial sends; failures close and "
+                      "raise EOFError")
+
+    class _NS:
+        mi_native = True
+
+        def __init__(self, **kw):
+            self.__dict__.update(kw)
+    decided = {}
+    for cq, kind in (("rpyc.core.stream.SocketStream", "sock"), ("rpyc.core.stream.PipeStream", "pipe")):
+        c = ctx.cls(cq)
+        short = cq.split(".")[-1]
+        meths = {n: m.node for k in reversed(ctx.repo.mro(c)) for n, m in k.methods.items()}
+        for op in ("read", "write"):
+            if op not in c.methods:
+                continue
+            rep.analysed(c.methods[op])
+            bad = []
+            rows = 0
+            try:
+                STREAM = bytes(range(65, 91)) * 2          # 52 distinct-ish bytes
+                scripts = []
+                if op == "read":
+                    for frag in (1, 2, 3, 5, 8, 64):
+                        scripts.append(("fragments of %d" % frag, [STREAM[i:i + frag] for i in range(0, len(STREAM), frag)], None))
+                    scripts.append(("time-out between fragments", [STREAM[:3], "timeout", STREAM[3:7], "timeout", "timeout", STREAM[7:]], None))
+                    scripts.append(("would-block between fragments", [STREAM[:2], "eagain", STREAM[2:9], "eagain", STREAM[9:]], None))
+                    scripts.append(("time-out before the first byte", ["timeout", "eagain", STREAM], None))
+                    scripts.append(("end of stream after 5 bytes", [STREAM[:5], b""], "eof"))
+                    scripts.append(("end of stream at once", [b""], "eof"))
+                    scripts.append(("connection reset after 4 bytes", [STREAM[:4], "reset"], "eof"))
+                else:
+                    scripts = [("everything accepted", [None], None), ("one byte at a time", [1], None),
+                               ("3, then 1, then all", [3, 1, None], None), ("half of each chunk", ["half"], None),
+                               ("connection reset at the second send", [2, "reset"], "eof"), ("connection reset at once", ["reset"], "eof")]
+                for label, script, outcome in scripts:
+                    for want_n in ((1, 5, 7, 8, 9, 20) if op == "read" else (0, 1, 7, 8, 9, 23)):
+                        rows += 1
+                        closed = []
+                        pending = list(script)
+                        consumed = [0]
+                        asked = []
+                        last_exc = [None]
+                        accepted = []
+
+                        def fail(name, eno):
+                            r = MI.Raised(name)
+                            r.errno = eno
+                            last_exc[0] = r
+                            raise r
+
+                        def do_recv(n, *a):
+                            asked.append(n)
+                            if not isinstance(n, int) or n <= 0:
+                                fail("ValueError", None)
+                            while True:
+                                if not pending:
+                                    fail("socket.timeout", None)      # nothing more scripted: the peer is silent
+                                item = pending[0]
+                                if item == "timeout":
+                                    pending.pop(0)
+                                    fail("socket.timeout" if kind == "sock" else "OSError", None if kind == "sock" else _errno.EAGAIN)
+                                if item == "eagain":
+                                    pending.pop(0)
+                                    fail("socket.error" if kind == "sock" else "OSError", _errno.EAGAIN)
+                                if item == "reset":
+                                    pending.pop(0)
+                                    fail("socket.error" if kind == "sock" else "OSError", _errno.ECONNRESET)
+                                if item == b"":
+                                    return b""
+                                out, rest = item[:n], item[n:]
+                                if rest:
+                                    pending[0] = rest
+                                else:
+                                    pending.pop(0)
+                                consumed[0] += len(out)
+                                return out
+
+                        def do_send(chunk, *a):
+                            if not isinstance(chunk, (bytes, bytearray)):
+                                fail("TypeError", None)
+                            asked.append(len(chunk))
+                            item = pending[0] if pending else None
+                            if len(pending) > 1:
+                                pending.pop(0)
+                            if item == "reset":
+                                fail("socket.error" if kind == "sock" else "OSError", _errno.ECONNRESET)
+                            n_ = len(chunk) if item is None else (max(1, len(chunk) // 2) if item == "half" else min(item, len(chunk)))
+                            accepted.append(bytes(chunk[:n_]))
+                            return n_
+                        fobj_in = _NS(fileno=lambda: 3, close=lambda: None)
+                        fobj_out = _NS(fileno=lambda: 4, close=lambda: None, flush=lambda: None)
+                        state = {"MAX_IO_CHUNK": 8}
+                        if kind == "sock":
+                            state["sock"] = _NS(recv=do_recv, send=do_send, close=lambda: None, shutdown=lambda *a: None, fileno=lambda: 3)
+                        else:
+                            state.update({"incoming": fobj_in, "outgoing": fobj_out})
+                        hooks = {"self.close": lambda: closed.append(1), "sys.exc_info": lambda: (None, last_exc[0], None),
+                                 "get_exc_errno": lambda ex: getattr(ex, "errno", None),
+                                 "os.read": lambda fd, n: do_recv(n), "os.write": lambda fd, b: do_send(b)}
+                        vals_ = {"os.read": hooks["os.read"], "os.write": hooks["os.write"]}
+                        if kind == "sock":
+                            vals_.update({"self.sock.recv": do_recv, "self.sock.send": do_send})
+                        extra = {"__calls__": hooks, "__values__": vals_,
+                                 "__methods__": {k: v for k, v in meths.items() if k != "close"}, "__max_iter__": 400,
+                                 "__globals__": {"errno": _NS(**{k: getattr(_errno, k) for k in dir(_errno) if k.startswith("E")})}}
+                        extra["__global_lookup__"] = K.module_function_lookup(ctx, c.module, extra, skip=("errno", "os", "sys", "socket"))
+                        if op == "read":
+                            avail = sum(len(x) for x in script if isinstance(x, bytes))
+                            try:
+                                got = MI.call_method(meths["read"], state, [want_n], extra)
+                                res = ("ok", bytes(got) if isinstance(got, (bytes, bytearray)) else got)
+                            except MI.Raised as r_:
+                                res = ("raise", r_.name)
+                            eof_hit = outcome == "eof" and want_n > avail
+                            if eof_hit:
+                                if res != ("raise", "EOFError") or not closed:
+                                    bad.append("%s, read(%d): %s%s, expected EOFError and a closed stream" % (
+                                        label, want_n, res[1] if res[0] == "raise" else "returns %d bytes" % len(res[1]),
+                                        "" if closed else " (stream left open)"))
+                            elif res == ("raise", "<nontermination>") and want_n > avail:
+                                pass        # more was asked than the script delivers and the peer stays silent: blocking is right
+                            elif kind == "pipe" and res == ("raise", "EOFError") and closed and any(
+                                    x in ("timeout", "eagain") for x in script):
+                                pass        # a (blocking) pipe that reports EAGAIN is treated as failed: closed + EOFError is allowed
+                            elif res != ("ok", STREAM[:want_n]) or consumed[0] != want_n or any(
+                                    (not isinstance(x, int)) or x > 8 for x in asked):
+                                what = res[1] if res[0] == "raise" else "%d bytes%s" % (
+                                    len(res[1]) if isinstance(res[1], bytes) else -1,
+                                    " (other content)" if isinstance(res[1], bytes) and len(res[1]) == want_n and res[1] != STREAM[:want_n] else "")
+                                bad.append("%s, read(%d): %s, %d byte(s) taken from the descriptor, requests %s" % (
+                                    label, want_n, ("raises " + what) if res[0] == "raise" else "returns " + what, consumed[0], asked[:6]))
+                        else:
+                            data = STREAM[:want_n]
+                            try:
+                                MI.call_method(meths["write"], state, [data], extra)
+                                res = ("ok", None)
+                            except MI.Raised as r_:
+                                res = ("raise", r_.name)
+                            will_fail = outcome == "eof" and want_n > 0 and not (script == [2, "reset"] and want_n <= 2)
+                            if will_fail:
+                                if res != ("raise", "EOFError") or not closed:
+                                    bad.append("%s, write(%d bytes): %s%s, expected EOFError and a closed stream" % (
+                                        label, want_n, res, "" if closed else " (stream left open)"))
+                            elif res != ("ok", None) or b"".join(accepted) != data or any(x > 8 for x in asked):
+                                bad.append("%s, write(%d bytes): %s; the descriptor accepted %d byte(s)%s, chunk sizes %s" % (
+                                    label, want_n, "returns" if res[0] == "ok" else "raises " + res[1], len(b"".join(accepted)),
+                                    "" if b"".join(accepted) == data[:len(b"".join(accepted))] else " (not a prefix of the data)", asked[:6]))
+            except AnalysisError as e_:
+                rep.undecided("R05.9", "%s.%s model" % (short, op), str(e_))
+                continue
+            rep.ob("R05.9", "%s.%s on scripted descriptors: %s" % (short, op, "exactly the requested bytes, EOF/hard error -> closed + "
+                   "EOFError" if op == "read" else "all data accepted in order, hard error -> closed + EOFError"), not bad,
+                   "%d script x size combinations" % rows if not bad else "; ".join(bad[:3]), c.methods[op].loc, kind="model")
+            if not bad:
+                decided[(cq, op)] = True
+    return decided
